@@ -99,6 +99,8 @@ def ops_of(sc):
             out.append("sub(s%d,r%d)" % (o["s"], o["r"]))
         elif t == "add":
             out.append("add(s%d,%s)=h%d" % (o["s"], "own" if o["own"] else "plain", o["h"]))
+        elif t == "addev":
+            out.append("addev(s%d,%s,o%d)=h%d" % (o["s"], "own" if o["own"] else "plain", o["o"], o["h"]))
         elif t in ("rem", "close"):
             out.append("%s(s%d)" % (t, o["s"]))
         else:
